@@ -1,5 +1,6 @@
 """Collection of classes that are used by the user to define the model and grids."""
 
+import math
 from abc import ABC, abstractmethod
 from dataclasses import dataclass, fields, is_dataclass
 from typing import Any
@@ -131,6 +132,14 @@ class LogspaceGrid(ContinuousGrid):
 
     """
 
+    def __post_init__(self) -> None:
+        super().__post_init__()
+        # The grid is constructed on the logarithmic scale, which requires positive values
+        if self.start <= 0:
+            raise GridInitializationError(
+                format_messages(["start must be greater than 0 for a LogspaceGrid"]),
+            )
+
     def to_jax(self) -> Array:
         """Convert the grid to a Jax array."""
         return grid_helpers.logspace(self.start, self.stop, self.n_points)
@@ -251,6 +260,12 @@ def _validate_continuous_grid(
         error_messages.append(
             f"n_points must be an int greater than 0 but is {n_points}",
         )
+
+    if valid_start_type and not math.isfinite(start):
+        error_messages.append("start must be a finite value")
+
+    if valid_stop_type and not math.isfinite(stop):
+        error_messages.append("stop must be a finite value")
 
     if valid_start_type and valid_stop_type and start >= stop:
         error_messages.append("start must be less than stop")
